@@ -216,4 +216,28 @@ Definition raw_safe (s:str) : bool := lexres_eqb (py_lex (raw_quote s)) (Ok [Str
 Definition prefixes_safe (o:top_op) : bool :=
   match o with TCreateTable t => forallb raw_safe (t_prefixes t) | _ => true end.
 
-Definition inclass_C08 (i:c08_in) : bool := canonical i && forallb prefixes_safe (snd i).
+(* the opaque type trees given to the model *)
+Definition ty_ok (t:tytok) : bool := forallb all_leaves_via_repr (ty_args t).
+Definition oty_ok (t:option tytok) : bool := match t with Some t => ty_ok t | None => true end.
+Definition col_ty_ok (x:column) : bool := ty_ok (c_type x).
+Definition tbl_op_ty_ok (o:tbl_op) : bool :=
+  match o with
+  | OAddColumn x => col_ty_ok x
+  | OAlterColumn a => oty_ok (a_existing_type a) && oty_ok (a_type a)
+  | _ => true
+  end.
+Definition top_ty_ok (o:top_op) : bool :=
+  match o with
+  | TCreateTable t => forallb col_ty_ok (t_cols t)
+  | TDropTable _ _ _ _ => true
+  | TOp _ _ o => tbl_op_ty_ok o
+  | TModify _ _ ops => forallb (fun m => tbl_op_ty_ok (snd m)) ops
+  end.
+Definition no_prefixes (o:top_op) : bool := match o with TCreateTable t => match t_prefixes t with [] => true | _ => false end | _ => true end.
+
+
+(* the hypotheses of the token-level theorem, evaluated per input *)
+Definition tokens_class (i:c08_in) : bool :=
+  forallb top_ty_ok (snd i) && forallb (fun st => forallb wf_expr (stmt_exprs st)) (render_ops (fst i) (snd i)).
+
+Definition inclass_C08 (i:c08_in) : bool := canonical i && forallb prefixes_safe (snd i) && tokens_class i.
